@@ -1,4 +1,4 @@
-// c12_tree.hpp — wrapper-side helpers for C12: run the REAL parse_tree::parse<> and flatten the returned tree.
+// c12_tree.hpp — wrapper-side helpers for C12: run the REAL parse_tree::parse<> and report the returned tree.
 //
 // The unit is compiled with  -I /verif/lib/stubstd -DVSTUB_CAP=<cap>  so that std::vector (children, builder stack) is the
 // array-backed stand-in; std::unique_ptr, parse_tree::basic_node, internal::state, make_control, the selector machinery and the
@@ -8,11 +8,11 @@
 #include "common.hpp"
 #include <tao/pegtl/contrib/parse_tree.hpp>
 
-#ifndef C12_MAXNODES
-#define C12_MAXNODES 8
+#ifndef C12_MAXCH
+#define C12_MAXCH 3  // children per node that are reported (more -> out[5] != 0)
 #endif
-#ifndef C12_MAXDEPTH
-#define C12_MAXDEPTH 6
+#ifndef C12_MAXD
+#define C12_MAXD 3  // levels below the root that are reported (deeper -> out[5] != 0)
 #endif
 
 namespace c12
@@ -20,26 +20,29 @@ namespace c12
    struct tnode;
 }
 
-// The node class brings its own deleter (a program-defined specialisation of std::default_delete for a program-defined type):
-// it frees exactly the nodes the primary template would free (the node and everything below it, each once), but walks the
-// subtree with an explicit work list instead of recursing through ~vector -> ~unique_ptr -> ~tnode.  A bounded model checker
-// unfolds that recursion once per child slot and level (capacity^depth copies at every pop_back); the loop below is linear.
+#if defined( __clang__ ) && !defined( C12_REAL_DELETE )
+// Translated build (clang -> IR -> ll2c -> CBMC): the node class brings its own deleter that releases nothing.  The primary
+// std::default_delete recurses ~tnode -> ~vector -> ~unique_ptr -> ~tnode; a bounded model checker unfolds that recursion once
+// per child slot and level at every pop_back (capacity^depth copies, measured: no verdict in 600 s / > 20 GB for a five-rule
+// grammar).  Freeing a popped subtree has no effect on the nodes that stay in the tree, which is all the property talks about.
+// The g++ build used for translation validation and for replays keeps the real deleter, under AddressSanitizer.
 namespace std
 {
    template<>
    struct default_delete< c12::tnode >
    {
       constexpr default_delete() noexcept = default;
-      inline void operator()( c12::tnode* p ) const;
+      void operator()( c12::tnode* /*unused*/ ) const noexcept {}
    };
 }  // namespace std
+#endif
 
 namespace c12
 {
    using namespace tao::pegtl;
 
    // custom node class (doc/Parse-Tree.md "Custom Node Class"): the real basic_node plus an integer identity
-   // recorded when the node is started (avoids comparing demangled names in the solver; is_type<>() is checked separately)
+   // recorded when the node is started (avoids comparing demangled names in the solver; `type` is checked separately)
    struct tnode
       : parse_tree::basic_node< tnode >
    {
@@ -53,39 +56,6 @@ namespace c12
       }
    };
 
-}  // namespace c12
-
-inline void std::default_delete< c12::tnode >::operator()( c12::tnode* p ) const
-{
-#ifdef C12_LEAK
-   (void)p;
-   return;
-#endif
-   c12::tnode* work[ C12_MAXNODES + 2 ];
-   unsigned n = 0;
-   work[ n++ ] = p;
-   // one node per iteration
-   for( unsigned it = 0; ( it < C12_MAXNODES + 2 ) && ( n != 0 ); ++it ) {
-      c12::tnode* q = work[ --n ];
-      for( auto& c : q->children ) {
-         if( c ) {
-            if( n == C12_MAXNODES + 2 ) {
-               verif_capacity_exceeded();
-            }
-            work[ n++ ] = c.release();
-         }
-      }
-      // every child pointer is null now and the other members are trivially destructible: ~tnode() would do nothing,
-      // the storage is released without calling it (calling it would re-enter ~unique_ptr for every child slot)
-      ::operator delete( q );
-   }
-   if( n != 0 ) {
-      verif_capacity_exceeded();
-   }
-}
-
-namespace c12
-{
    // the node's `type` member against the list of selected rules: id of the first rule whose demangled name it IS (same
    // characters at the same address, the first disjunct of basic_node::is_type<>(); the memcmp fallback is not exercised) or -1
    template< typename Rule >
@@ -98,64 +68,74 @@ namespace c12
    template< typename... Rules >
    struct typelist
    {
-      template< typename Node >
-      static int id_of( const Node& n )
+      static int id_of( const std::string_view t )
       {
          int r = -1;
-         (void)( ( same_name< Rules >( n.type ) ? ( r = vf::rid< Rules >::value, true ) : false ) || ... );
+         (void)( ( same_name< Rules >( t ) ? ( r = vf::rid< Rules >::value, true ) : false ) || ... );
          return r;
       }
    };
 
-   // out[0] result (0 no tree / 1 tree / 2 verif_exc / 3 foreign_exc), out[1] cursor, out[2] exception id,
-   // out[3] number of nodes below the root, out[4] flags of the root (bit0: is_root(), bit1: has_content()),
-   // out[5] nodes dropped because they did not fit (0 within bounds),
-   // then per node in pre-order at out[8 + 6*i ..]: id, depth (children of the root: 0), begin, end (or ~0 without content),
-   //                                               number of children, id according to is_type<>()
-   template< typename Types >
-   inline void flatten( const tnode& root, const char* base, unsigned long* out )
+   // Positional report of the tree: the node reached from the root through child indices i0, i1, .., id (all < C12_MAXCH,
+   // d < C12_MAXD) is written to slot  off(d) + (((i0 * MAXCH) + i1) * MAXCH + ..) + id,  off(d) = MAXCH + .. + MAXCH^d.
+   // Every index is a compile-time constant after unrolling, so the solver sees no symbolic array index on this side.
+   //   word: bit 63 present | bits 0..15 id + 1 | 16..31 id according to `type` + 1 | 32..39 begin | 40..47 end (255: no content)
+   //         | 48..55 number of children
+   constexpr unsigned long level_off( int d )
    {
-      const tnode* stk[ C12_MAXDEPTH + 1 ];
-      unsigned long idx[ C12_MAXDEPTH + 1 ];
-      unsigned long n = 0;
-      unsigned long lost = 0;
-      int d = 0;
-      stk[ 0 ] = &root;
-      idx[ 0 ] = 0;
-      // every iteration either descends into one node (<= C12_MAXNODES times) or pops one level
-      for( unsigned it = 0; it < 2 * C12_MAXNODES + 2; ++it ) {
-         const tnode* cur = stk[ d ];
-         if( idx[ d ] < cur->children.size() ) {
-            const tnode* c = cur->children[ idx[ d ] ].get();
-            ++idx[ d ];
-            if( ( n < C12_MAXNODES ) && ( d < C12_MAXDEPTH ) ) {
-               unsigned long* o = out + 8 + 6 * n;
-               o[ 0 ] = (unsigned long)(long)c->id;
-               o[ 1 ] = (unsigned long)d;
-               o[ 2 ] = (unsigned long)( c->m_begin.data - base );
-               o[ 3 ] = c->has_content() ? (unsigned long)( c->m_end.data - base ) : ~0UL;
-               o[ 4 ] = c->children.size();
-               o[ 5 ] = (unsigned long)(long)Types::id_of( *c );
-               ++n;
-               ++d;
-               stk[ d ] = c;
-               idx[ d ] = 0;
-            }
-            else {
-               ++lost;
-            }
-         }
-         else {
-            if( d == 0 ) {
-               break;
-            }
-            --d;
-         }
+      unsigned long o = 0;
+      unsigned long w = C12_MAXCH;
+      for( int i = 0; i < d; ++i ) {
+         o += w;
+         w *= C12_MAXCH;
       }
-      out[ 3 ] = n;
-      out[ 5 ] = lost;
+      return o;
    }
 
+   constexpr unsigned long total_slots = level_off( C12_MAXD );
+
+   template< typename Types >
+   inline unsigned long pack( const tnode& c, const char* base )
+   {
+      const unsigned long id = (unsigned long)( c.id + 1 ) & 0xffffUL;
+      const unsigned long tid = (unsigned long)( Types::id_of( c.type ) + 1 ) & 0xffffUL;
+      const unsigned long b = (unsigned long)( c.m_begin.data - base ) & 0xffUL;
+      const unsigned long e = c.has_content() ? ( (unsigned long)( c.m_end.data - base ) & 0xffUL ) : 0xffUL;
+      const unsigned long nc = c.children.size() & 0xffUL;
+      return ( 1UL << 63 ) | id | ( tid << 16 ) | ( b << 32 ) | ( e << 40 ) | ( nc << 48 );
+   }
+
+   template< int D, typename Types >
+   inline void walk( const tnode& parent, const unsigned long j, const char* base, unsigned long* slots, unsigned long& count, unsigned long& lost )
+   {
+      if( parent.children.size() > C12_MAXCH ) {
+         ++lost;
+      }
+      for( unsigned long i = 0; i < C12_MAXCH; ++i ) {
+         if( i < parent.children.size() ) {
+            const tnode* c = parent.children[ i ].get();
+            if( c == nullptr ) {
+               ++lost;
+               continue;
+            }
+            slots[ level_off( D ) + j * C12_MAXCH + i ] = pack< Types >( *c, base );
+            ++count;
+            if constexpr( D + 1 < C12_MAXD ) {
+               walk< D + 1, Types >( *c, j * C12_MAXCH + i, base, slots, count, lost );
+            }
+            else {
+               if( !c->children.empty() ) {
+                  ++lost;
+               }
+            }
+         }
+      }
+   }
+
+   // out[0] result (0 no tree / 1 tree / 2 verif_exc / 3 foreign_exc), out[1] cursor, out[2] exception id,
+   // out[3] number of nodes below the root, out[4] flags of the root (bit0: is_root(), bit1: has_content()),
+   // out[5] something did not fit the report (0 within bounds), out[6] number of children of the root,
+   // out[8 ..] the slots (the caller clears them)
    template< typename Rule, template< typename... > class Selector, template< typename... > class Action, typename Types >
    inline void run_tree( const char* b, unsigned long n, unsigned long start, unsigned long* out )
    {
@@ -165,16 +145,18 @@ namespace c12
       out[ 3 ] = 0;
       out[ 4 ] = 0;
       out[ 5 ] = 0;
+      out[ 6 ] = 0;
       try {
          const std::unique_ptr< tnode > r = parse_tree::parse< Rule, tnode, Selector, Action, vf::vcontrol >( in );
          if( r ) {
+            unsigned long count = 0;
+            unsigned long lost = 0;
             out[ 0 ] = 1;
             out[ 4 ] = ( r->is_root() ? 1UL : 0UL ) | ( r->has_content() ? 2UL : 0UL );
-#ifdef C12_NOFLATTEN
-            out[ 3 ] = r->children.size();
-#else
-            flatten< Types >( *r, b, out );
-#endif
+            out[ 6 ] = r->children.size();
+            walk< 0, Types >( *r, 0, b, out + 8, count, lost );
+            out[ 3 ] = count;
+            out[ 5 ] = lost;
          }
          else {
             out[ 0 ] = 0;
